@@ -7,7 +7,7 @@ MANIFEST = dict(
     cat="proof",
     tech="Coq proofs about the (graph, blockers) representation and about a transcription of the editing code + differential "
          "correspondence of the C++ with the extracted transcription and with the extracted abstract complex after every operation",
-    text="Coq theorems, unbounded (28, all closed under the global context): a closed complex is exactly the set of vertex lists "
+    text="Coq theorems, unbounded (29, all closed under the global context): a closed complex is exactly the set of vertex lists "
          "containing no minimal non-face, and a blocker list that represents it and whose members have all proper faces present IS "
          "the set of minimal non-faces of dimension >= 2; minimal non-faces induced by star removal and simplex insertion, image "
          "of a complex under the vertex identification of a contraction (closed; independent of freeing the simplices blocked through "
